@@ -102,4 +102,13 @@ CHECKS = {
         "assumptions": SIM_ASSUME + ["recorded 'skipped' steps are outside the property's enumeration and are not generated (no step preconditions)", "the agent-level clauses (new request id, parameters, recorded steps after an edit of the file) are checked by the 'agent' stage"],
         "stages": [sim_stage(1500, 20000, shrinktime="20s")],
     },
+    "C12": {
+        "pkg": "c12", "level": "exploration", "exhaustive_claim": True, "needs": ["tool:emit"],
+        "rule": "real child processes (tools/emit: attempt-tagged pseudo-random patterns over disjoint alphabets, stdout lower-case / stderr upper-case, written in generated chunk sizes, failing the first k invocations) run by the real scheduler + real command executor: 1..3 steps (independent or chained) x {stdout: file, stderr: file, output: variable, script} power set x retry limit none/0/1/2 x k below/at/above the limit x stream {stdout, stderr, both interleaved} x sizes {0,1,2,100,4095,4096,4097,8191..8193,65535..65537, random <20000, 60000..300000, 131072 / 1 MiB} x chunk sizes x done-channel consumer {none, prompt, slow}; plus the full grid (16 configs x retries 0..2 x 3 streams x sizes) once. Oracle after Schedule returns: the file named by State().Log filtered to the stdout alphabet contains the last attempt's stdout bytes as a contiguous substring, filtered to the stderr alphabet the last attempt's stderr bytes (or the stderr: file does when configured); the stdout: file contains the stdout bytes; number of invocations and final state agree with the script; the run ends (bounded liveness 10 s, confirmed with 30 s). Non-trivial: (a retry really happened AND a redirect/output is configured) OR (both streams non-empty with a size off the 4096 boundary). Distinct: hash of the case.",
+        "assumptions": ["interleaving between the two streams in one file is unconstrained (both are filtered by alphabet)", "the stdout:/stderr: files are opened in append mode by the code; only the last attempt's bytes are required to be present"],
+        "stages": [
+            {"name": "grid", "run": "TestGrid", "kind": "plain", "shards": 16, "timeout": {"quick": 600, "thorough": 1800}},
+            sim_stage(40, 1500, shrinktime="30s"),
+        ],
+    },
 }
